@@ -106,9 +106,22 @@
         The valid abstract documents of Spec/Infoset.v satisfy [conv_hyps] when they have no external subset (their
         entity values are character data and references, [ent_items_ok]), so what is left for (f) with a DOCTYPE
         is the DTD rung of [render_wf] alone.
-    Not proved: documents WITH a document type declaration -- the DTD rung of [render_wf] (renderings of
-    the declarations read back by the specification, the constraints with declared entities and defaulted
-    attributes) and the converse (e) for the internal subset -- and, for all documents, [parse_render]
+    (k) round 2 -- THE SYNTAX RUNG OF [render_wf] FOR DOCUMENTS WITH A DOCUMENT TYPE DECLARATION
+        ([rendered_doctype_is_read_partial], Proofs/XmlWFSyntaxRenderDtd{,Elem,Doc}.v): for every abstract
+        document that satisfies [shape_ok] (the lexical half of [valid]) and has a DOCTYPE, every oracle,
+          strict_cm (render d c) = true   and   parse_document (render d c) = Some xd
+        where xd is known explicitly: the XML declaration and the three Misc lists of the canonical tree
+        [to_xdoc d], the DOCTYPE with the same name and external identifier and one declaration read back
+        for each abstract declaration ([decl_read]: ENTITY with the oracle's pieces of the same replacement
+        text -- literal characters / character references, either quote; external and unparsed entities,
+        NOTATION with SYSTEM / PUBLIC / PUBLIC-only identifiers; ATTLIST with every attribute type,
+        enumerations with the oracle's white space, #REQUIRED / #IMPLIED / #FIXED / default literals;
+        ELEMENT with EMPTY / ANY / mixed content / nested choice and sequence groups with occurrence
+        indicators and white space anywhere the grammar allows it; comments and PIs), and the root read
+        back as in (f).  The fuel of the specification (length of the input + 1) suffices.
+    Not proved: for documents WITH a document type declaration, the CONSTRAINT rung of [render_wf] (the
+    constraints on the tree read back under the declared entities and the defaulted attributes; it needs
+    the hypothesis of (g)); and, for all documents, [parse_render]
     (the infoset the model builds from the rendering is [denote d]; named [parse_render_partial] in
     notes/wf_STATUS.md).  These are covered by checks/C01.py, which evaluates wf (render d c) and
     infoset_of_string (render d c) = denote d with the extracted functions on every generated case,
@@ -120,7 +133,8 @@ From XmlRs Require Model.ParseActions Model.Info Proofs.ParseInvElem Proofs.XmlW
   Proofs.XmlWFSyntaxConvElem Proofs.XmlWFSyntaxConvDoc Proofs.XmlWFSyntaxConvCheck
   Proofs.XmlWFSyntaxRenderNode Proofs.XmlWFSyntaxRenderCheck Proofs.XmlWFSyntaxRenderDoc
   Proofs.DisplayLex Proofs.XmlWFSyntaxDtd Proofs.XmlWFSyntaxDtdDoc Proofs.XmlWFSyntaxConvDtd Proofs.XmlWFSyntaxConvDtdAtt
-  Proofs.XmlWFSyntaxConvDtdElem Proofs.XmlWFSyntaxConvDtdDoc Proofs.XmlWFSyntaxConvDtdCheck.
+  Proofs.XmlWFSyntaxConvDtdElem Proofs.XmlWFSyntaxConvDtdDoc Proofs.XmlWFSyntaxConvDtdCheck
+  Proofs.XmlWFSyntaxRenderDtd Proofs.XmlWFSyntaxRenderDtdElem Proofs.XmlWFSyntaxRenderDtdDoc.
 Import ListNotations.
 
 (** every oracle is an admissible choice of surface forms *)
@@ -308,6 +322,21 @@ Example wellformed_is_accepted_nonvacuous :
   /\ XmlWFSyntaxConvDtdCheck.conv_hyps XmlWFSyntaxConvDtdCheck.ex_conv = true.
 Proof. exact XmlWFSyntaxConvDtdCheck.wf_accepted_nonvacuous. Qed.
 
+(** ** (k) the syntax rung of render_wf with a DOCTYPE *)
+Theorem rendered_doctype_is_read_partial : forall (d : adoc) (c : choices) dt, shape_ok d = true -> a_doctype d = Some dt ->
+  XmlWFSyntaxConvDtdCheck.strict_cm (render d c) = true /\
+  exists item l', XmlWFSyntaxRenderNode.reads (a_root d) [item] /\
+    Forall2 XmlWFSyntaxRenderDtdDoc.decl_read (opt_list (ad_subset dt)) l' /\
+    parse_document (render d c) =
+    Some {| x_decl := x_decl (to_xdoc d); x_misc1 := flat_map to_x (a_misc1 d);
+            x_doctype := Some {| dt_name := ad_name dt; dt_extid := extid_of (ad_pub dt) (ad_sys dt); dt_subset := l' |};
+            x_misc2 := flat_map to_x (a_misc2 d); x_root := item; x_misc3 := flat_map to_x (a_misc3 d) |}.
+Proof.
+  intros d c dt Hs Hdt. destruct (XmlWFSyntaxRenderDtdDoc.render_parse_dtd d c dt Hs Hdt) as (item & l' & Hr & Hl & Hp).
+  split; [unfold XmlWFSyntaxConvDtdCheck.strict_cm; rewrite Hp; reflexivity|].
+  exists item, l'. split; [exact Hr|]. split; [exact Hl|]. exact (XmlWFSyntaxConvDtdDoc.q_parse_document_spec _ _ Hp).
+Qed.
+
 Example rendered_nontrivial :
   comment_ok [32;97;45;98;32]%N = true /\ pi_ok [112;105]%N (Some [120;63;32;62]%N) = true.
 Proof. split; vm_compute; reflexivity. Qed.
@@ -337,3 +366,4 @@ Print Assumptions spec_attlist_decl_is_accepted_partial.
 Print Assumptions strict_grammar_refines_spec.
 Print Assumptions spec_grammar_is_accepted_partial.
 Print Assumptions wellformed_is_accepted_partial.
+Print Assumptions rendered_doctype_is_read_partial.
